@@ -16,7 +16,7 @@ func init() { runners["C20"] = runC20 }
 // C20: every fault point k of the supplied random source, on every operation
 // that draws randomness (Builder.Build, New, Append), in every failure style.
 func runC20(res *Result, rng *RNG, tier string, outDir string) {
-	res.Rule = "fault space enumerated completely: op in {Build, New, Append} x k in [0,40] bytes delivered before the source fails x style in {error, 1-byte reads, 7-byte reads, io.EOF, io.ErrUnexpectedEOF, the same errors returned TOGETHER with the last bytes (n > 0 and err in one Read), and TRANSIENT failures after which the source delivers again: EAGAIN, EINTR, an error with Temporary()/Timeout(), os.ErrDeadlineExceeded, a wrapped EAGAIN, a plain error, io.EOF}; a case is non-trivial when the source fails strictly inside the 32-byte draw (0<k<32) or delivers enough (k>=32); distinct by (op,k,style)"
+	res.Rule = "fault space enumerated completely: op in {Build, New, Append} x k in [0,40] bytes delivered before the source fails x style in {error, 1-byte reads, 7-byte reads, io.EOF, io.ErrUnexpectedEOF, the same errors returned TOGETHER with the last bytes (n > 0 and err in one Read), sources whose every other Read returns (0, nil), and TRANSIENT failures after which the source delivers again: EAGAIN, EINTR, an error with Temporary()/Timeout(), os.ErrDeadlineExceeded, a wrapped EAGAIN, a plain error, io.EOF}; a case is non-trivial when the source fails strictly inside the 32-byte draw (0<k<32) or delivers enough (k>=32); distinct by (op,k,style)"
 	res.Exhaustive = true
 	rootSeed := rng.Bytes(32)
 	priv := ed25519.NewKeyFromSeed(rootSeed)
@@ -61,16 +61,18 @@ func runC20(res *Result, rng *RNG, tier string, outDir string) {
 
 	wrappedAgain := fmt.Errorf("read /dev/hwrng: %w", syscall.EAGAIN)
 	styles := []struct {
-		name   string
-		chunk  int
-		err    error
-		resume bool // the source delivers again after having reported the error once
-		eager  bool // the error is returned together with the last bytes (n > 0, err != nil in one Read)
-	}{{"error", 0, errInjected, false, false}, {"read1", 1, errInjected, false, false}, {"read7", 7, errInjected, false, false}, {"eof", 0, io.EOF, false, false}, {"ueof", 3, io.ErrUnexpectedEOF, false, false},
-		{"eagain-resume", 0, syscall.EAGAIN, true, false}, {"eintr-resume", 5, syscall.EINTR, true, false}, {"temporary-resume", 0, tempErr{}, true, false},
-		{"deadline-resume", 0, os.ErrDeadlineExceeded, true, false}, {"wrapped-eagain-resume", 0, wrappedAgain, true, false}, {"error-resume", 0, errInjected, true, false}, {"eof-resume", 0, io.EOF, true, false},
-		{"eof-with-last-bytes", 0, io.EOF, false, true}, {"eof-with-last-bytes-read5", 5, io.EOF, false, true}, {"error-with-last-bytes", 0, errInjected, false, true},
-		{"ueof-with-last-bytes", 11, io.ErrUnexpectedEOF, false, true}, {"eof-with-last-bytes-resume", 0, io.EOF, true, true}}
+		name    string
+		chunk   int
+		err     error
+		resume  bool // the source delivers again after having reported the error once
+		eager   bool // the error is returned together with the last bytes (n > 0, err != nil in one Read)
+		stutter bool // every other Read returns (0, nil)
+	}{{"error", 0, errInjected, false, false, false}, {"read1", 1, errInjected, false, false, false}, {"read7", 7, errInjected, false, false, false}, {"eof", 0, io.EOF, false, false, false}, {"ueof", 3, io.ErrUnexpectedEOF, false, false, false},
+		{"eagain-resume", 0, syscall.EAGAIN, true, false, false}, {"eintr-resume", 5, syscall.EINTR, true, false, false}, {"temporary-resume", 0, tempErr{}, true, false, false},
+		{"deadline-resume", 0, os.ErrDeadlineExceeded, true, false, false}, {"wrapped-eagain-resume", 0, wrappedAgain, true, false, false}, {"error-resume", 0, errInjected, true, false, false}, {"eof-resume", 0, io.EOF, true, false, false},
+		{"eof-with-last-bytes", 0, io.EOF, false, true, false}, {"eof-with-last-bytes-read5", 5, io.EOF, false, true, false}, {"error-with-last-bytes", 0, errInjected, false, true, false},
+		{"ueof-with-last-bytes", 11, io.ErrUnexpectedEOF, false, true, false}, {"eof-with-last-bytes-resume", 0, io.EOF, true, true, false},
+		{"stutter-error", 6, errInjected, false, false, true}, {"stutter-eof-with-last-bytes", 9, io.EOF, false, true, true}}
 	ops := []string{"Build", "New", "Append"}
 
 	cf := NewCasesFile("Base Chain Corr")
@@ -80,7 +82,7 @@ func runC20(res *Result, rng *RNG, tier string, outDir string) {
 		for k := 0; k <= 40; k++ {
 			for si, st := range styles {
 				data := rng.Bytes(k)
-				fr := &faultReader{data: data, chunk: st.chunk, failErr: st.err, eager: st.eager}
+				fr := &faultReader{data: data, chunk: st.chunk, failErr: st.err, eager: st.eager, stutter: st.stutter}
 				if st.resume {
 					fr.resume = rng.Bytes(96)
 				}
